@@ -662,6 +662,28 @@ package semver
 //@   ensures compare(a, b) < 0
 //@   property C02
 
+// PEP 440 local version segments: numeric segments compare as integers (so a
+// zero-padded spelling changes nothing), a numeric segment is greater than an
+// alphanumeric one, alphanumeric segments compare lexically.
+//@ lemma pep440.local.segments
+//@   vars a, b string
+//@   unfold p440compareLocalElem
+//@   ensures imp(allDigits(a) && allDigits(b) && parseuint(a) < parseuint(b), p440compareLocalElem(a, b) < 0)
+//@   ensures imp(allDigits(a) && allDigits(b) && parseuint(a) == parseuint(b), p440compareLocalElem(a, b) == 0)
+//@   ensures imp(allDigits(a) && !allDigits(b), p440compareLocalElem(a, b) > 0)
+//@   ensures imp(!allDigits(a) && !allDigits(b) && a < b, p440compareLocalElem(a, b) < 0)
+//@   property C02
+
+// Maven's qualifier table (ComparableVersion): alpha < beta < milestone <
+// rc = cr < snapshot < "" = ga = final = release < sp.
+//@ lemma maven.qualifier.table
+//@   unfold compareMavenQualifier
+//@   ensures compareMavenQualifier("cr", "rc") == 0 && compareMavenQualifier("rc", "cr") == 0
+//@   ensures compareMavenQualifier("alpha", "beta") < 0 && compareMavenQualifier("beta", "milestone") < 0 && compareMavenQualifier("milestone", "rc") < 0
+//@   ensures compareMavenQualifier("rc", "snapshot") < 0 && compareMavenQualifier("snapshot", "") < 0 && compareMavenQualifier("", "sp") < 0
+//@   ensures compareMavenQualifier("ga", "") == 0 && compareMavenQualifier("final", "") == 0 && compareMavenQualifier("release", "") == 0
+//@   property C02
+
 // Maven ComparableVersion: an integer item whose value is zero is a "null"
 // item (IntItem.isNull), exactly like the empty string and the release
 // qualifiers, and null items are trimmed from the end of each list; so a
